@@ -36,7 +36,7 @@ ASSUMPTIONS = [
   'the raw result of FrozenDict.tree_flatten_with_keys (an internal pytree-protocol method) is not mutated; flattening goes through jax.tree_util',
   'hash checks only where every leaf is hashable',
 ]
-PROBES = ['mutation_of_source_after_freeze', 'mutation_of_unfreeze_result', 'mutation_of_copy_argument', 'hash_checked', 'order_variant', 'pickle_roundtrip', 'struct_runs', 'retrace_on_static_change', 'cache_hit_on_dynamic_change', 'nested_frozen_in_source']
+PROBES = ['mutation_of_source_after_freeze', 'mutation_of_unfreeze_result', 'mutation_of_copy_argument', 'hash_checked', 'order_variant', 'pickle_roundtrip', 'struct_runs', 'retrace_on_static_change', 'cache_hit_on_dynamic_change', 'nested_frozen_in_source', 'struct_shared_metadata']
 
 
 def setup_worker(w, tier):
@@ -148,7 +148,7 @@ def gen_struct(g):
       ops.append(dict(op='grad', inst=a))
     else:
       ops.append(dict(op='new', val=g.randrange(1, 6)))
-  return dict(engine='valueworld', knobs=dict(kind='struct', fields=fields, base=g.choice(['dataclass', 'PyTreeNode'])), ops=ops)
+  return dict(engine='valueworld', knobs=dict(kind='struct', fields=fields, base=g.choice(['dataclass', 'PyTreeNode']), meta=g.choice([None, None, 'fresh', 'shared'])), ops=ops)
 
 
 SHRINK_LISTS = ['ops']
@@ -482,12 +482,24 @@ class SWorld:
     self.fields = k['fields']
     ann = {}
     ns = {}
+    # user metadata passed to struct.field: a fresh dict per field, or ONE dict object reused for every field
+    mode = k.get('meta')
+    shared = {'units': 'm'}
+    self.meta_objs = []
     for f in self.fields:
       ann[f['name']] = object
+      kw = {}
+      if mode == 'fresh':
+        kw['metadata'] = {'units': 'm', 'doc': f['name']}
+      elif mode == 'shared':
+        kw['metadata'] = shared
+        res.probe('struct_shared_metadata')
+      if 'metadata' in kw:
+        self.meta_objs.append((kw['metadata'], dict(kw['metadata'])))
       if f['static']:
-        ns[f['name']] = struct.field(pytree_node=False, default=0)
+        ns[f['name']] = struct.field(pytree_node=False, default=0, **kw)
       else:
-        ns[f['name']] = struct.field(default=None)
+        ns[f['name']] = struct.field(default=None, **kw)
     ns['__annotations__'] = ann
     if k['base'] == 'dataclass':
       self.cls = struct.dataclass(type('Gen', (), ns))
@@ -508,6 +520,14 @@ class SWorld:
 
     self.jf = jax.jit(f)
     self.insts = [self.make(1)]
+    for obj, before in self.meta_objs:
+      if obj != before:
+        raise Violation('field-metadata-mutated', f'struct.field changed the metadata dict passed in: {before} -> {obj}')
+    # the declared layout decides the pytree leaves, whatever metadata objects were passed
+    leaves = jax.tree_util.tree_leaves(self.insts[0])
+    want = [getattr(self.insts[0], fl['name']) for fl in self.fields if not fl['static']]
+    if len(leaves) != len(want) or any(a is not b for a, b in zip(leaves, want)):
+      raise Violation('pytree-leaves', 'pytree leaves are not exactly the fields declared without pytree_node=False')
 
   def make(self, val):
     kw = {}
